@@ -531,17 +531,44 @@ void h_hdr_err_2bit(void)
   VERIF_CANARY();
 }
 
+/* Burst = error pattern confined to a window of 16 consecutive bit positions
+ * of the serial line (each octet least significant bit first, as a UART sends
+ * it; RPW_BURST_LSB_FIRST 0: most significant bit first).  Regions of the
+ * protected part: 0 = sequence, address, block size (bits 16..95), 1 = first
+ * checksum word, 2 = second checksum word.  RPW_BURST_STRADDLE 0: windows
+ * inside one region; 1: windows that straddle a region boundary; 2: both.
+ * RPW_BURST_SOLID: all bits of the window inverted.  A checksum word is sent
+ * most significant octet first although CRC-16/ARC is a reflected CRC, and the
+ * header checksum sits between block size and payload checksum but covers
+ * both, so a window that straddles a checksum word boundary is not a burst of
+ * the checksummed bit sequence (see targets/C07.json: undecided_parts). */
+#ifndef RPW_BURST_STRADDLE
+#define RPW_BURST_STRADDLE 0
+#endif
+#ifndef RPW_BURST_SOLID
+#define RPW_BURST_SOLID 0
+#endif
+#define RPW_HDR_REGION(b) ((b) < 96u ? 0 : (b) < 112u ? 1 : 2)
 void h_hdr_err_burst(void)
 {
   RPW_ACCEPTED_SERIAL_HEADER()
   IN(unsigned, in_start) IN(uint16_t, in_pattern)
   ASSUME(in_pattern != 0 && (in_pattern & 1u));
   ASSUME(in_start >= 16 && in_start < hbits);
+  unsigned last = in_start;
   for (unsigned i = 0; i < 16; i++) {
     if (in_pattern & (1u << i)) {
       ASSUME(in_start + i < hbits);
       rpw_flip(h2, in_start + i, RPW_BURST_LSB_FIRST);
+      last = in_start + i;
     }
+  }
+#if RPW_BURST_SOLID
+  ASSUME(((unsigned)in_pattern & ((unsigned)in_pattern + 1u)) == 0u);
+#endif
+  {
+    int straddles = RPW_HDR_REGION(in_start) != RPW_HDR_REGION(last);
+    ASSUME(RPW_BURST_STRADDLE == 2 || (RPW_BURST_STRADDLE ? straddles : !straddles));
   }
   int rc2 = parse_header(frame, h2, 16);
   CHECK(rc2 == -EILSEQ, "every error burst of up to 16 bits in the protected header fields is classified as bad header checksum");
@@ -579,21 +606,49 @@ void h_lemma_trunc_ext(void)
   VERIF_CANARY();
 }
 
-/* Payload part on the real ufw_buffer_crc16_arc: for every payload of up to
- * RPW_ERR_PAYLOAD_MAX octets and every error pattern of the class, the
- * checksum changes (so check_payload, proved to compare exactly this checksum,
- * reports bad payload checksum).  Tier B: bounded payload length. */
+/* Payload part on the real CRC functions.  CRC-16/ARC with initial value 0
+ * is linear over GF(2): crc(m xor e) == crc(m) xor crc(e).  This is checked
+ * on the real crc16_octet for every state/octet pair (one step) and on the
+ * real ufw_buffer_crc16_arc for symbolic contents up to the bound; so a
+ * corrupted payload keeps its checksum exactly when crc(e) == 0, and the two
+ * detection targets decide crc(e) != 0 on the real function for every error
+ * pattern of the class at every position of an all-zero message of every
+ * length up to RPW_ERR_PAYLOAD_MAX octets.  check_payload is proved to
+ * compare exactly this checksum with the transmitted one.  Tier B: bounded
+ * payload length. */
+void h_lemma_crc_step_linear(void)
+{
+  IN(uint16_t, in_c1) IN(uint16_t, in_c2) IN(uint8_t, in_o1) IN(uint8_t, in_o2)
+  CHECK(crc16_octet((uint16_t)(in_c1 ^ in_c2), (uint8_t)(in_o1 ^ in_o2))
+        == (uint16_t)(crc16_octet(in_c1, in_o1) ^ crc16_octet(in_c2, in_o2)),
+        "one CRC-16/ARC step is linear over GF(2)");
+  CHECK(IMPLIES(crc16_octet(in_c1, 0) == 0, in_c1 == 0), "a zero octet maps only the zero state to zero");
+  VERIF_CANARY();
+}
+
+void h_lemma_crc_buf_linear(void)
+{
+  IN(size_t, in_len)
+  ASSUME(in_len <= RPW_ERR_PAYLOAD_MAX);
+  IN_MEM(in_m, in_len)
+  IN_MEM(in_e, in_len)
+  unsigned char *x = malloc(in_len); ASSUME(x != NULL);
+  for (size_t i = 0; i < in_len; i++) x[i] = in_m[i] ^ in_e[i];
+  CHECK(ufw_buffer_crc16_arc(x, in_len) == (uint16_t)(ufw_buffer_crc16_arc(in_m, in_len) ^ ufw_buffer_crc16_arc(in_e, in_len)),
+        "crc(m xor e) == crc(m) xor crc(e)");
+  VERIF_CANARY();
+}
+
 void h_payload_err_2bit(void)
 {
   IN(size_t, in_len) IN(unsigned, in_b1) IN(unsigned, in_b2)
   ASSUME(in_len >= 1 && in_len <= RPW_ERR_PAYLOAD_MAX);
   ASSUME(in_b1 <= in_b2 && in_b2 < 8u * in_len);
-  IN_MEM(in_payload, in_len)
-  uint16_t c1 = ufw_buffer_crc16_arc(in_payload, in_len);
-  rpw_flip(in_payload, in_b1, 0);
-  if (in_b2 != in_b1) rpw_flip(in_payload, in_b2, 0);
-  uint16_t c2 = ufw_buffer_crc16_arc(in_payload, in_len);
-  CHECK(c1 != c2, "every one- and two-bit error in the payload changes its CRC-16/ARC");
+  IN_MEM(in_e, in_len)
+  memset(in_e, 0, in_len);
+  rpw_flip(in_e, in_b1, 0);
+  if (in_b2 != in_b1) rpw_flip(in_e, in_b2, 0);
+  CHECK(ufw_buffer_crc16_arc(in_e, in_len) != 0, "every one- and two-bit error in the payload changes its CRC-16/ARC");
   VERIF_CANARY();
 }
 
@@ -602,16 +657,18 @@ void h_payload_err_burst(void)
   IN(size_t, in_len) IN(unsigned, in_start) IN(uint16_t, in_pattern)
   ASSUME(in_len >= 1 && in_len <= RPW_ERR_PAYLOAD_MAX);
   ASSUME(in_pattern != 0 && (in_pattern & 1u) && in_start < 8u * in_len);
-  IN_MEM(in_payload, in_len)
-  uint16_t c1 = ufw_buffer_crc16_arc(in_payload, in_len);
+  IN_MEM(in_e, in_len)
+  memset(in_e, 0, in_len);
   for (unsigned i = 0; i < 16; i++) {
     if (in_pattern & (1u << i)) {
       ASSUME(in_start + i < 8u * in_len);
-      rpw_flip(in_payload, in_start + i, RPW_BURST_LSB_FIRST);
+      rpw_flip(in_e, in_start + i, RPW_BURST_LSB_FIRST);
     }
   }
-  uint16_t c2 = ufw_buffer_crc16_arc(in_payload, in_len);
-  CHECK(c1 != c2, "every error burst of up to 16 bits in the payload changes its CRC-16/ARC");
+#if RPW_BURST_SOLID
+  ASSUME(((unsigned)in_pattern & ((unsigned)in_pattern + 1u)) == 0u);
+#endif
+  CHECK(ufw_buffer_crc16_arc(in_e, in_len) != 0, "every error burst of up to 16 bits in the payload changes its CRC-16/ARC");
   VERIF_CANARY();
 }
 
